@@ -118,7 +118,8 @@ def check_body(ctx, cps, convert, packed):
     expect_prefix = ""
     if packed:
         chars = [chr(c) for c in cps if not (convert and c == 0x3D)]
-        cells = ["".join(chars[i:i + 32]) for i in range(0, len(chars), 32)]
+        w = 32 if packed is True else int(packed)      # (cells of everyday length, and whole paragraphs in a cell)
+        cells = ["".join(chars[i:i + w]) for i in range(0, len(chars), w)]
         if convert:
             # mixed strings: a LaTeX command in front of the swept characters (the conversion pass then
             # really rewrites the string); it must read back as its mapped character, the rest unchanged
@@ -305,8 +306,11 @@ def check_positions(ctx, rng, pool, fixed=None):
             continue
         conv_of_tag[TWO_LINE[comp] + "0"], conv_of_tag[TWO_LINE[comp] + "1"] = convs
     texts = {}
+    long_tag = rng.choice(sorted(tags)) if tags and rng.random() < 0.15 else None
     for t in tags:
         k = rng.randint(1, 6)
+        if t == long_tag:
+            k = rng.choice([257, 300, 520, 1100])       # a whole paragraph of non-ASCII text in one component
         cps = [rng.choice(pool) for _ in range(k)]
         cps = [c for c in cps if valid_cp(c, conv_of_tag[t]) and not (conv_of_tag[t] and c in (0x3D,))]
         # keep the tag readable: payload never starts with a digit/letter that would extend the tag
@@ -387,11 +391,13 @@ def run_shard(desc, ctx):
                 continue
             check_body(ctx, cps, convert, packed=False)
             check_body(ctx, cps, convert, packed=True)
+            check_body(ctx, cps, convert, packed=rng.choice([257, 300, 520, 1100]))
     elif desc["kind"] == "body_sample":
         cps = [c for c in stratified(rng, desc["n"]) if valid_cp(c, True)]
         conv = rng.random() < 0.5
         check_body(ctx, cps, conv, packed=False)
         check_body(ctx, cps, conv, packed=True)
+        check_body(ctx, cps, conv, packed=rng.choice([257, 300, 520, 1100]))
     else:
         latin = [c for c in range(0x20, 0x100) if valid_cp(c, False)]
         sl = latin[desc["latin_slice"]::desc["latin_of"]]
